@@ -7,7 +7,7 @@ From Coq Require Import String ZArith List Bool Arith.
 From PF Require Import Lib.ListX Lib.PySlice Model.Ragged Model.RaggedSpec Model.RaggedRun Model.Frame Gen.Tables.
 Import ListNotations.
 
-Definition cmat := cellmat payload.
+Notation cmat := (cellmat payload) (only parsing).
 
 Inductive fview :=
 | VDense (c k : nat) (m : cmat)                 (* every cell has k scalars *)
@@ -82,6 +82,19 @@ Fixpoint chain_positions (n : nat) (p : list index) : option (list nat) :=
       end
   end.
 
+(* a chain of selections on the spec side: every step picks the same positions from every view and the target *)
+Fixpoint spec_chain (n : nat) (vs : list (stype * fview)) (nm : list (stype * list string))
+         (yy : option (list payload)) (ov : option nat) (p : list index) : option tframe :=
+  match p with
+  | [] => Some (frame_of vs nm yy ov)
+  | ix :: rest =>
+      match py_positions n (as_list_index ix) with
+      | Some pos => spec_chain (length pos) (map (fun sv => (fst sv, vsel pos (snd sv))) vs) nm
+                               (option_map (ysel pos) yy) (option_map (fun _ => length pos) ov) rest
+      | None => None
+      end
+  end.
+
 (* ---------------------------------------------------------------- C08 *)
 (* columns a..b of a view *)
 Definition col_chunk (a b : nat) (m : cmat) : cmat := map (fun r => tslice r a b) m.
@@ -92,6 +105,10 @@ Definition vcols (a b : nat) (v : fview) : fview :=
   | VEmb ws m => VEmb (tslice ws a b) (col_chunk a b m)
   | VDict d => VDict (map (fun kcm => (fst kcm, (Nat.min b (fst (snd kcm)) - a, col_chunk a b (snd (snd kcm))))) d)
   end.
+
+(* row-wise concatenation of cell matrices of n rows each (column concatenation) *)
+Definition zip_rows (n : nat) (ms : list cmat) : cmat :=
+  map (fun i => concat (map (fun m => nth i m []) ms)) (seq 0 n).
 
 (* number of columns of a view *)
 Definition vncols (v : fview) : nat :=
@@ -104,3 +121,82 @@ Definition vncols (v : fview) : nat :=
 
 (* column j of a view, as get_col_feat must return it *)
 Definition vcol (j : nat) (v : fview) : fview := vcols j (j + 1) v.
+
+(* ---------------------------------------------------------------- validity *)
+(* a dict-valued feature has distinct keys and the same number of columns under every key *)
+Definition vdict_ok (v : fview) : Prop :=
+  match v with
+  | VDict d => NoDup (map fst d) /\ Forall (fun kcm => fst (snd kcm) = vncols v) d
+  | _ => True
+  end.
+
+(* feat_dict and col_names_dict are dicts over the same stypes, and every stype has one name per column *)
+Definition names_ok (vs : list (stype * fview)) (nm : list (stype * list string)) : Prop :=
+  NoDup (map fst vs) /\ NoDup (map fst nm) /\ length nm = length vs
+  /\ (forall s, In s (map fst nm) -> In s (map fst vs))
+  /\ (forall s v, In (s, v) vs ->
+        vdict_ok v /\ exists cn, alookup stype_eqb s nm = Some cn /\ length cn = vncols v /\ cn <> []).
+
+(* two views hold close data: same storage kind and shape, every scalar close, missing matching missing *)
+Definition cells_close (close : Z -> Z -> bool) (m m' : cmat) : Prop :=
+  Forall2 (Forall2 (Forall2 (fun a b => pclose close true a b = true))) m m'.
+
+(* ---------------------------------------------------------------- equality *)
+(* what `a == b` must mean, branch by branch of __eq__: same length; same target (every pair of entries close,
+   a missing target entry is never close to anything); same col_names_dict as dicts; every feature of a has a
+   close feature under the same stype in b *)
+Definition y_equiv (close : Z -> Z -> bool) (ya yb : option (list payload)) : Prop :=
+  match ya, yb with
+  | Some u, Some v => length u = length v /\ Forall2 (fun q p => pclose close false q p = true) v u
+  | None, None => True
+  | _, _ => False
+  end.
+
+Definition names_equiv (na nb : list (stype * list string)) : Prop :=
+  length na = length nb /\ forall s cn, In (s, cn) na -> alookup stype_eqb s nb = Some cn.
+
+Definition tf_equiv (close : Z -> Z -> bool) (a b : tframe) : Prop :=
+  (exists n, tf_num_rows a = Some n /\ tf_num_rows b = Some n)
+  /\ y_equiv close (y a) (y b)
+  /\ names_equiv (names a) (names b)
+  /\ Forall (fun sx => exists xb, alookup stype_eqb (fst sx) (feats b) = Some xb /\ feat_eq close (snd sx) xb = true)
+            (feats a).
+
+(* two views hold close data *)
+Definition view_close (close : Z -> Z -> bool) (v v' : fview) : Prop :=
+  match v, v' with
+  | VDense c k m, VDense c' k' m' => c = c' /\ k = k' /\ cells_close close m m'
+  | VNested c m, VNested c' m' => c = c' /\ cells_close close m m'
+  | VEmb ws m, VEmb ws' m' => ws = ws' /\ cells_close close m m'
+  | VDict d, VDict d' =>
+      length d = length d'
+      /\ (forall k, In k (map fst d') -> In k (map fst d))
+      /\ forall k c m, In (k, (c, m)) d -> exists m', alookup String.eqb k d' = Some (c, m') /\ cells_close close m m'
+  | _, _ => False
+  end.
+
+(* one scalar of a cell matrix, and one component (cell matrix) of a view: key = None for the three tensor
+   storage kinds, Some k for the k-entry of a dict-valued feature *)
+Definition scalar_at (m : cmat) (i j k : nat) : payload := nth k (nth j (nth i m []) []) None.
+Definition view_comp (key : option string) (v : fview) : option cmat :=
+  match v, key with
+  | VDense _ _ m, None => Some m
+  | VNested _ m, None => Some m
+  | VEmb _ m, None => Some m
+  | VDict d, Some k => option_map (fun cm => snd cm) (alookup String.eqb k d)
+  | _, _ => None
+  end.
+
+(* ---------------------------------------------------------------- column partitions *)
+(* part of a frame holding, for every stype s, the columns lo s .. hi s - 1 (a stype with no column in the
+   part is absent from it, as validate() demands) *)
+Definition col_part_views (lo hi : stype -> nat) (vs : list (stype * fview)) : list (stype * fview) :=
+  flat_map (fun sv => if lo (fst sv) <? hi (fst sv)
+                      then [(fst sv, vcols (lo (fst sv)) (hi (fst sv)) (snd sv))] else []) vs.
+Definition col_part_names (lo hi : stype -> nat) (nm : list (stype * list string)) : list (stype * list string) :=
+  flat_map (fun sc => if lo (fst sc) <? hi (fst sc)
+                      then [(fst sc, tslice (snd sc) (lo (fst sc)) (hi (fst sc)))] else []) nm.
+(* the j-th of the parts cut at cut 0 s <= cut 1 s <= ... for every stype s *)
+Definition col_part (cut : nat -> stype -> nat) (vs : list (stype * fview)) (nm : list (stype * list string))
+           (py : nat -> option (list payload)) (pov : nat -> option nat) (j : nat) : tframe :=
+  frame_of (col_part_views (cut j) (cut (S j)) vs) (col_part_names (cut j) (cut (S j)) nm) (py j) (pov j).
